@@ -97,23 +97,41 @@ Proof.
 Qed.
 
 (* what an accepted observation means: the final listing has exactly the initial entries, and every
-   snapshot taken in between contains all initial entries plus at most ONE new entry, which is a
-   top-level name (no '/' in it: nothing visible inside the sorter's directory, nothing elsewhere) *)
-Theorem tmp_ok_spec : forall before during after, tmp_ok before during after = true ->
+   snapshot taken in between contains all initial entries plus at most ONE new entry, which is a direct
+   child of the configured directory (nothing visible inside the sorter's directory, nothing elsewhere) *)
+Theorem tmp_ok_spec : forall cfg before during after, tmp_ok cfg before during after = true ->
   (incl before after /\ incl after before) /\
   forall l, In l during -> incl before l /\
-    exists extra, (extra = [] \/ exists d, extra = [d] /\ has_sep d = false) /\
+    exists extra, (extra = [] \/ exists d, extra = [d] /\ direct_child cfg d = true) /\
                   forall x, In x l -> In x before \/ In x extra.
 Proof.
-  intros before during after H. unfold tmp_ok in H. apply andb_true_iff in H. destruct H as (Hd & Hs).
+  intros cfg before during after H. unfold tmp_ok in H. apply andb_true_iff in H. destruct H as (Hd & Hs).
   split.
   - unfold same_set in Hs. apply andb_true_iff in Hs. destruct Hs as (H1 & H2).
     split; apply subset_b_iff; assumption.
-  - intros l Hl. rewrite forallb_forall in Hd. specialize (Hd l Hl). unfold during_ok in Hd.
+  - intros l Hl. rewrite forallb_forall in Hd. specialize (Hd l Hl). unfold during_ok' in Hd.
     apply andb_true_iff in Hd. destruct Hd as (Hsub & Hnew). split; [apply subset_b_iff; exact Hsub|].
     exists (new_entries before l). split.
     + destruct (new_entries before l) as [|d [|d2 t]]; [left; reflexivity| |discriminate].
-      right. exists d. split; [reflexivity|]. apply negb_true_iff in Hnew. exact Hnew.
+      right. exists d. split; [reflexivity|exact Hnew].
     + intros x Hx. destruct (str_in x before) eqn:E; [left; apply str_in_iff; exact E|right].
       unfold new_entries. apply filter_In. split; [exact Hx|]. rewrite E. reflexivity.
+Qed.
+
+Lemma strip_prefix_app p s t : strip_prefix p s = Some t -> s = p ++ t.
+Proof.
+  revert s. induction p as [|a p IH]; intros s H; cbn [strip_prefix] in H.
+  - injection H as <-. reflexivity.
+  - destruct s as [|b s']; [discriminate|]. destruct (N.eqb_spec a b) as [->|]; [|discriminate].
+    cbn [app]. f_equal. apply IH. exact H.
+Qed.
+(* a direct child really is cfg/name with a non-empty name free of separators *)
+Theorem direct_child_spec : forall cfg d, direct_child cfg d = true ->
+  exists name, d = cfg ++ [47] ++ name /\ name <> [] /\ has_sep name = false.
+Proof.
+  intros cfg d H. unfold direct_child in H. destruct (strip_prefix (cfg ++ [47]) d) as [name|] eqn:E; [|discriminate].
+  apply strip_prefix_app in E. apply andb_true_iff in H. destruct H as (H1 & H2).
+  exists name. split; [rewrite E, <- app_assoc; reflexivity|]. split.
+  - intros ->. discriminate.
+  - apply negb_true_iff in H1. exact H1.
 Qed.
